@@ -182,6 +182,12 @@ def parse_line(text: str):
     return r
 
 
+def _key_of(m):
+    """the key under which the legacy per-request API looks a message up: `str(id)` (None for no id)"""
+    i = getattr(m, "id", None)
+    return None if i is None else str(i)
+
+
 def parse_line_uncached(text: str):
     """The library's own verdict on one whole line: ("junk",) | ("single", dump, is_notification)
     | ("batch", [None | (dump, is_notification)])."""
@@ -197,7 +203,7 @@ def parse_line_uncached(text: str):
         for it in data:
             try:
                 m = parse_message(it)
-                items.append((dump_msg(m), getattr(m, "id", None) is None))
+                items.append((dump_msg(m), getattr(m, "id", None) is None, _key_of(m)))
             except Exception:  # noqa
                 items.append(None)
         return ("batch", items)
@@ -205,7 +211,7 @@ def parse_line_uncached(text: str):
         m = parse_message(data)
     except Exception:  # noqa
         return ("junk",)
-    return ("single", dump_msg(m), getattr(m, "id", None) is None)
+    return ("single", dump_msg(m), getattr(m, "id", None) is None, _key_of(m))
 
 
 def _decode_writes(sends):
